@@ -176,8 +176,8 @@ def traj_records(env, data, cfg, seed, nsteps, rid0):
         srecs.append({'id': rid0 + t, 'want': ['C01', 'C12', 'C17', 'DRIFT'], 'fam': '', 'fi': -1, 'fsize': -1, 'k': -1, 'space': space,
                       'comps': cfg['comps'], 'rew': [cfg['rew']], 'term': [cfg['term']], 'st': st,
                       'acts': [{'a': a.name, 'outcome': 'ok', 'full': False, 'same': False, 'support': [nxt], 'r': [proj.milli(r)],
-                                'rtype': [type(r).__name__], 'rfinite': [True], 'rexact': [proj.is_milli_exact(r)], 'done': [bool(d)],
-                                'dtype': [type(d).__name__]}], 'mutated': False})
+                                'rtype': ['float' if isinstance(r, float) else type(r).__name__], 'rfinite': [True], 'rexact': [proj.is_milli_exact(r)], 'done': [bool(d)],
+                                'dtype': ['bool' if isinstance(d, (bool, np.bool_)) else type(d).__name__]}], 'mutated': False})
         fname = cfg['obs']['name']
         fankey = ''
         if obsh.needs_fan(fname):
